@@ -338,3 +338,15 @@ def contracts():
     u = _c05.update_contract()
     u.prop = PROP
     return _c03_base6() + [u]
+
+
+# every watcher with a qualifying event runs — also when an earlier one ended itself with param.Skip
+# (`_execute_watcher` is verified for C04)
+_c03_base_exec = contracts
+
+
+def contracts():
+    from contracts import c04 as _c04
+    c = _c04.execute_watcher_contract("args")
+    c.prop = PROP
+    return _c03_base_exec() + [c]
